@@ -211,6 +211,26 @@ def big_signal_sets(tier):
     return out
 
 
+def arith_formulas():
+    """every arithmetic operation of the dense-time online monitor over two unaligned variables"""
+    X, Y = F.X, F.Y
+    ts = [(b, X, Y) for b in F.ARITH2 + F.ARITHF2] + [(b, Y, ('+', X, F.C1)) for b in ('-', '/', 'pow', 'log')] + [(u, X) for u in F.ARITH1] + \
+         [(u, ('-', X, Y)) for u in ('abs', 'neg', 'exp')] + [('sqrt', ('+', X, Y)), ('ln', ('*', X, Y))]
+    fs = [('pred', '>=', t, F.C1) for t in ts]
+    return fs + [('once', (0, 1), fs[0]), ('historically', (1, 2), fs[4]), ('since', (0, 1), fs[3], ('pred', '<=', Y, F.C1))]
+
+
+def arith_signal_sets(tier):
+    out = []
+    for tx, ty in ((TIMES_X[0], TIMES_Y[0]), (TIMES_X[1], TIMES_Y[1])):
+        sets = []
+        for vx in itertools.product((0.5, 2.0), repeat=len(tx)):
+            for vy in itertools.product((0.5, 4.0), repeat=len(ty)):
+                sets.append({'x': tuple(zip(tx, vx)), 'y': tuple(zip(ty, vy))})
+        out += sets[3::(32 if tier == 'quick' else 4)]
+    return out
+
+
 def int_formulas():
     I = ((0, 1), (1, 2))
     fs = [f for f in F.F(1, F.unary_ops(I, ops=PAST_U), F.binary_ops(I, ops=PAST_B, unless=False), [(F.PX, F.PY, F.X)]) if F.size(f) >= 1]
@@ -281,6 +301,8 @@ def shards(tier):
     out += [{'formulas': [(F.to_json(f), False)], 'big': True} for f in big_formulas()]
     it = int_formulas()
     out += [{'formulas': [(F.to_json(f), False) for f in it[i:i + 3]], 'ints': True} for i in range(0, len(it), 3)]
+    ar = arith_formulas()
+    out += [{'formulas': [(F.to_json(f), False) for f in ar[i:i + 2]], 'arith': True} for i in range(0, len(ar), 2)]
     return out
 
 
@@ -306,14 +328,17 @@ def run_shard(shard, tier, res):
         vs = sorted(F.fvars(f))
         text = 'out = ' + F.pr(f)
         res.formulas += 1
-        for sig in (long_signal_sets() if shard.get('long') else int_signal_sets(len(vs), tier) if shard.get('ints') else big_signal_sets(tier) if shard.get('big')
+        for sig in (long_signal_sets() if shard.get('long') else arith_signal_sets(tier) if shard.get('arith') else int_signal_sets(len(vs), tier) if shard.get('ints') else big_signal_sets(tier) if shard.get('big')
                     else deep_signal_sets(len(vs), tier) if shard.get('deep') else signal_sets(len(vs), tier)):
             sig = {v: sig['x' if (v == 'y' and len(vs) == 1) else v] for v in vs}
             if shard.get('long'):
                 m = TwoCallModel(f, text, vs, sig, pastify)
                 m.cuts = LONG_CUTS_QUICK if tier == 'quick' else tuple(range(0, 72))
             else:
-                m = ScheduleModel(f, text, vs, sig, pastify)
+                try:
+                    m = ScheduleModel(f, text, vs, sig, pastify)
+                except refsem.DomainError:
+                    continue      # the data leave the domain of an arithmetic function
                 m.exact = bool(shard.get('big'))
 
             def on_violation(hist, msg, m=m, sig=sig):
